@@ -1,0 +1,97 @@
+//go:build verif
+
+// Package verifspec holds the ghost vocabulary used by the contract files
+// (zz_verif_contracts.go) of the verification build.  It is compiled only with
+// the build tag "verif"; the production build never sees it.  Every function
+// here is executable (so contracts can be replayed as ordinary Go) and is
+// mapped by the verification engine to a logical symbol of the same meaning.
+package verifspec
+
+import (
+	"reflect"
+	"unicode/utf8"
+)
+
+// Invariant registers the invariant of the loop statement that follows it.  f is
+// a func(...) bool; parameters, if any, are bound by name to the variables the
+// loop statement itself declares (for state := ...; the range index as idx).
+func Invariant(f any) {}
+
+// RangeInvariant registers the invariant of the range loop that follows it;
+// i is the number of completed iterations (the index of the next element).
+func RangeInvariant(f func(i int) bool) {}
+
+// Decreases registers the variant of the loop statement that follows it
+// (f is a func(...) int, parameters as for Invariant).
+func Decreases(f any) {}
+
+// SameFn reports whether two function values are the same function.
+func SameFn(a, b any) bool {
+	va, vb := reflect.ValueOf(a), reflect.ValueOf(b)
+	if va.Kind() != reflect.Func || vb.Kind() != reflect.Func {
+		return false
+	}
+	return va.Pointer() == vb.Pointer()
+}
+
+// B2I is 1 for true and 0 for false.
+func B2I(b bool) int {
+	if b {
+		return 1
+	}
+	return 0
+}
+
+// Assert is a ghost assertion at the program point where it stands.
+func Assert(name string, f func() bool) {}
+
+// Assume is only accepted by the engine inside lemma functions marked trusted.
+func Assume(f func() bool) {}
+
+// Forall is the bounded universal quantifier lo <= i < hi.
+func Forall(lo, hi int, f func(i int) bool) bool {
+	for i := lo; i < hi; i++ {
+		if !f(i) {
+			return false
+		}
+	}
+	return true
+}
+
+// Exists is the bounded existential quantifier lo <= i < hi.
+func Exists(lo, hi int, f func(i int) bool) bool {
+	for i := lo; i < hi; i++ {
+		if f(i) {
+			return true
+		}
+	}
+	return false
+}
+
+// RuneAt is the rune utf8.DecodeRuneInString finds at byte offset i of s.
+func RuneAt(s string, i int) rune {
+	r, _ := utf8.DecodeRuneInString(s[i:])
+	return r
+}
+
+// WidthAt is the width utf8.DecodeRuneInString reports at byte offset i of s.
+func WidthAt(s string, i int) int {
+	_, w := utf8.DecodeRuneInString(s[i:])
+	return w
+}
+
+// LastWidth is the width utf8.DecodeLastRuneInString reports for s[:p].
+func LastWidth(s string, p int) int {
+	_, w := utf8.DecodeLastRuneInString(s[:p])
+	return w
+}
+
+// OnBoundary reports whether p is reachable from 0 by forward decoding of s.
+func OnBoundary(s string, p int) bool {
+	q := 0
+	for q < p && q < len(s) {
+		_, w := utf8.DecodeRuneInString(s[q:])
+		q += w
+	}
+	return q == p
+}
